@@ -5,8 +5,11 @@
    Proved: every appended atom is S a + k for an operator S of the list, an original non-Q-peak atom a of the same
    PART and an integral translation k, and its fragment number is that of the first atom of a bonded SDM item; the
    needed-symmetry entries carry integral shifts; no appended atom lies within 0.2 A of an atom of the same
-   non-negative PART placed before it.  Completeness (every directly bonded fragment image is present) is not
-   proved: it is checked per sample against a brute-force neighbour search. *)
+   non-negative PART placed before it.  Completeness, for the model: every image (operator, lattice shift) of the first atom
+   of a bonded item of a numbered fragment that lies within the bonding limit of the second atom is in the needed-symmetry list
+   (C14_needed_symmetry_complete), and for every entry of that list every non-Q-peak atom of the fragment is appended unless an
+   atom of the same non-negative PART is already within 0.2 A of that place (C14_packer_complete).  What the theorems do not
+   cover: contacts the component-wise wrap cannot see (known finding) - checked per sample against a brute-force search. *)
 From SX Require Import Base.RTac Model.Sdm Proofs.SdmProofs Proofs.GrowProofs.
 Import ListNotations.
 Open Scope R_scope.
@@ -39,3 +42,25 @@ Theorem C14_packer_no_coincide m ops atoms idx needs wq :
              /\ placed_ok m init pl.
 Proof. exact (packer_no_coincide m ops atoms idx needs wq). Qed.
 Print Assumptions C14_packer_no_coincide.
+
+Theorem C14_needed_symmetry_complete m ops atoms items idx it a1 a2 n s fx fy fz dk :
+  In it items -> it_cov it = true -> (1 <= get_idx idx (it_a1 it))%Z ->
+  nth_error atoms (it_a1 it) = Some a1 -> nth_error atoms (it_a2 it) = Some a2 -> nth_error ops n = Some s ->
+  (sa_part a1 = 0 \/ sa_part a2 = 0 \/ sa_part a1 = sa_part a2)%Z ->        (* not in two different non-zero PARTs *)
+  ~ (sa_an a1 = sa_an a2 /\ sa_h a1 = true) ->                               (* not a hydrogen - hydrogen contact *)
+  candidate ROps m s a1 a2 = ((fx, fy, fz), dk) ->
+  ~ (n = 0%nat /\ fx = 0 /\ fy = 0 /\ fz = 0) ->                              (* not the atom itself *)
+  1 / 1000 < dk -> dk <= (if sa_h a1 && sa_h a2 then 18 / 10 else bond_limit ROps a1 a2) ->
+  exists nd, In nd (needed_symmetry ROps m ops atoms items idx) /\
+             nd_n nd = n /\ nd_fx nd = fx /\ nd_fy nd = fy /\ nd_fz nd = fz /\ nd_mol nd = get_idx idx (it_a1 it).
+Proof. exact (needed_symmetry_complete m ops atoms items idx it a1 a2 n s fx fy fz dk). Qed.
+Print Assumptions C14_needed_symmetry_complete.
+
+Theorem C14_packer_complete m ops atoms idx needs wq nd i a s px py pz :
+  In nd needs -> nth_error atoms i = Some a -> sa_qpeak a = false -> get_idx idx i = nd_mol nd ->
+  nth_error ops (nd_n nd) = Some s -> apply ROps s (sa_x a) (sa_y a) (sa_z a) = (px, py, pz) ->
+  placed_or_there m i (nd_n nd) (sa_part a) (px + (5 - nd_fx nd - 5)) (py + (5 - nd_fy nd - 5)) (pz + (5 - nd_fz nd - 5))
+    (fold_left (fun st nd => fold_left (pack_one ROps m ops wq idx nd) (number_from 0 atoms) st) needs
+               (omap (fun a => if negb wq && sa_qpeak a then None else Some (sa_part a, (sa_x a, sa_y a, sa_z a))) atoms, [])).
+Proof. exact (packer_complete m ops atoms idx needs wq nd i a s px py pz). Qed.
+Print Assumptions C14_packer_complete.
